@@ -9,5 +9,15 @@
 #define P_SYM 3
 #define P_SYM0 4
 #define SLOTLEN ((CAP + 1) > BNZ ? (CAP + 1) : BNZ)
+/* number of blocks the path allocates: refact 2 (colbeg, colend); column etree 6 (+ iwork, part_super_ata, post, invp); symmetric 10 / 9 */
+#if PATH == 1
+#define NSLOT 2
+#define POOLS_FRAME WHOLE(g_pool0), WHOLE(g_pool1)
+#elif PATH == 2
+#define NSLOT 6
+#define POOLS_FRAME WHOLE(g_pool0), WHOLE(g_pool1), WHOLE(g_pool2), WHOLE(g_pool3), WHOLE(g_pool4), WHOLE(g_pool5)
+#else
 #define NSLOT 10
-#define ALLOC_FRAME WHOLE(g_pool0), WHOLE(g_pool1), WHOLE(g_pool2), WHOLE(g_pool3), WHOLE(g_pool4), WHOLE(g_pool5), WHOLE(g_pool6), WHOLE(g_pool7), WHOLE(g_pool8), WHOLE(g_pool9), WHOLE(g_live), WHOLE(g_ptr), g_nalloc, g_nfree, g_badfree, g_badalloc, g_ncp, g_ncp_live
+#define POOLS_FRAME WHOLE(g_pool0), WHOLE(g_pool1), WHOLE(g_pool2), WHOLE(g_pool3), WHOLE(g_pool4), WHOLE(g_pool5), WHOLE(g_pool6), WHOLE(g_pool7), WHOLE(g_pool8), WHOLE(g_pool9)
+#endif
+#define ALLOC_FRAME POOLS_FRAME, WHOLE(g_live), WHOLE(g_ptr), g_nalloc, g_nfree, g_badfree, g_badalloc, g_ncp, g_ncp_live
